@@ -153,7 +153,7 @@ def dot(a, b):
     return sum(x * y for x, y in zip(a, b))
 
 
-def mesh_rules(rep, name, faces, verts, where, cfg, expect_euler=2):
+def mesh_rules(rep, name, faces, verts, where, cfg, expect_euler=2, closed=True, centroid_winding=True):
     key = lambda p: tuple(round(x, 4) + 0.0 for x in p)  # noqa: E731
     n = len(verts)
     ok = True
@@ -182,18 +182,19 @@ def mesh_rules(rep, name, faces, verts, where, cfg, expect_euler=2):
     open_ = [e for e in edges if (e[1], e[0]) not in edges]
     if dup:
         bad("T2", "edge-twice", "directed edge %s is used by faces %s: inconsistent orientation or overlapping faces" % (dup[0], edges[dup[0]]))
-    if open_:
+    if open_ and closed:
         bad("T2", "edge-open", "edge %s (face %s) has no opposite edge: the surface is not closed/consistently oriented" % (open_[0], edges[open_[0]]))
     V, E, F = len(ids), len({frozenset(e) for e in edges}), len([f for f in faces if len({pid[i] for i in f}) == 3])
-    if V - E + F != expect_euler:
+    if closed and V - E + F != expect_euler:
         bad("T2", "euler", "V - E + F = %d - %d + %d = %d, expected %d" % (V, E, F, V - E + F, expect_euler))
     for fi, f in enumerate(faces):
         p0, p1, p2 = (verts[i][0] for i in f)
         nrm = cross(sub(p1, p0), sub(p2, p0))
-        if math.sqrt(dot(nrm, nrm)) < 1e-9:
-            continue
+        e2 = max(dot(sub(p1, p0), sub(p1, p0)), dot(sub(p2, p0), sub(p2, p0)), dot(sub(p2, p1), sub(p2, p1)))
+        if math.sqrt(dot(nrm, nrm)) < 1e-9 or math.sqrt(dot(nrm, nrm)) < 1e-5 * e2 or len({pid[i] for i in f}) < 3:
+            continue          # degenerate (two corners coincide up to rounding: the seam duplicate of a ring, an on-axis end point)
         c = [(p0[k] + p1[k] + p2[k]) / 3 for k in range(3)]
-        if dot(nrm, sub(c, centroid)) <= 0:
+        if centroid_winding and dot(nrm, sub(c, centroid)) <= 0:
             bad("T2", "winding", "face %d = %s is wound inward (geometric normal points towards the centroid)" % (fi, list(f)))
             break
         for i in f:
@@ -277,6 +278,90 @@ def platonic_rules(rep, prog):
                     break
         # Box: the rule above used the unit box; any box with lbn < rtf componentwise is an
         # orientation-preserving axis scaling of it (positions are lerps of the corners by COORDS).
+
+
+def lathe_fold_rules(rep, prog):
+    """T3: the lathe family folded on concrete parameters (sa/constfold.py; sin / cos are the host's): cones with every combination of a zero
+    and a non-zero end radius, capped and not; cylinder, sphere, torus, capsule; a bare Lathe over partial azimuth ranges with a non-zero
+    start. Each mesh must build (no panic: indices valid), have unit vertex normals on the side of the geometric normal of every
+    non-degenerate face using them, no directed edge twice, lie on the intended surface, and - the closed solids - be watertight with the
+    right Euler characteristic and outward winding. These are the input shapes a recipe-level rule does not see: a skipped cap, a
+    partial sweep, an on-axis end point."""
+    from . import constfold as CF, absint as A
+    import math as _m
+    cfg = prog.config
+    L = "retrofire_geom::solids::lathe::"
+    PT, VEC, VTX, ANG = "retrofire_core::math::point::Point", "retrofire_core::math::vec::Vector", "retrofire_core::geom::Vertex", "retrofire_core::math::angle::Angle"
+    PH = ("adt", "core::marker::PhantomData", "PhantomData", [])
+    fv = lambda x: ("f", float(x))     # noqa: E731
+
+    def val(name, **kw):
+        fields = prog.adts[L + name]["variants"][0]["fields"]
+        missing = [f for f in fields if f not in kw]
+        if missing:
+            raise common.Infra("C15.T3: %s has fields the rule has no sample value for (%s)" % (name, missing))
+        return ("adt", L + name, name, [kw[f] for f in fields])
+
+    def pvert(x, y, nx, ny):
+        return ("adt", VTX, "Vertex", [("adt", PT, "Point", [("array", [fv(x), fv(y)]), PH]), ("adt", VEC, "Vector", [("array", [fv(nx), fv(ny)]), PH])])
+
+    def ang(turns_):
+        return ("adt", ANG, "Angle", [fv(turns_ * 2 * _m.pi)])
+
+    def rng(a, b):
+        return ("adt", "core::ops::range::Range", "Range", [ang(a), ang(b)])
+    s2 = _m.sqrt(0.5)
+    cases = []
+    for br, ar in ((1.0, 0.5), (0.0, 0.5), (0.5, 0.0), (1.0, 1.0)):
+        for capped in (1, 0):
+            on = (lambda br, ar: (lambda r, y: abs(r - (br + (ar - br) * (y + 1) / 2)) < 1e-4 or (abs(abs(y) - 1) < 1e-5 and r <= max(br, ar) + 1e-4)))(br, ar)
+            cases.append(("Cone(base %g, apex %g, %s)" % (br, ar, "capped" if capped else "open"), "Cone",
+                          dict(sectors=4, segments=2, capped=capped, base_radius=fv(br), apex_radius=fv(ar)), bool(capped), 2, on, True))
+    cases.append(("Cylinder(capped)", "Cylinder", dict(sectors=3, segments=1, capped=1, radius=fv(1.5)), True, 2, lambda r, y: abs(r - 1.5) < 1e-4 or abs(abs(y) - 1) < 1e-5, True))
+    cases.append(("Sphere", "Sphere", dict(sectors=4, segments=3, radius=fv(2.0)), True, 2, lambda r, y: abs(r * r + y * y - 4.0) < 1e-3, True))
+    cases.append(("Torus", "Torus", dict(major_radius=fv(2.0), minor_radius=fv(0.5), major_sectors=4, minor_sectors=3), True, 0,
+                  lambda r, y: abs((r - 2.0) ** 2 + y * y - 0.25) < 1e-3, False))
+    cases.append(("Capsule", "Capsule", dict(sectors=4, body_segments=2, cap_segments=2, radius=fv(1.0)), True, 2,
+                  lambda r, y: (abs(y) <= 1 + 1e-5 and abs(r - 1.0) < 1e-4) or abs(r * r + (abs(y) - 1) ** 2 - 1.0) < 1e-3, True))
+    prof = ("array", [pvert(1.0, -1.0, s2, -s2), pvert(1.5, 0.0, 1.0, 0.0), pvert(0.5, 1.0, s2, s2)])
+    on_prof = lambda r, y: any(abs(r - pr) < 1e-4 and abs(y - py) < 1e-5 for pr, py in ((1.0, -1.0), (1.5, 0.0), (0.5, 1.0)))      # noqa: E731
+    for a_, b_ in ((0.25, 0.75), (0.125, 0.5), (0.0, 1.0)):
+        cases.append(("Lathe(%g..%g turns)" % (a_, b_), "Lathe", dict(points=A.copy_val(prof), sectors=4, capped=0, az_range=rng(a_, b_)), False, None, on_prof, False))
+    mesh = (prog.adts.get("retrofire_core::geom::mesh::Mesh") or {}).get("variants") or [{}]
+    mf = mesh[0].get("fields") or []
+    vf = ((prog.adts.get(VTX) or {}).get("variants") or [{}])[0].get("fields") or []
+    n_ok = 0
+    for label, name, kw, closed, euler, on_surface, cw in cases:
+        body = prog.body(L + name + "::build")
+        it = CF.interp(prog)
+        try:
+            r = A.deref_all(it, it.call_body(body, [val(name, **kw)]))
+        except A.Panic as e:
+            rep.violate("C15.T3", "T3|%s|panics" % name, body.where(), "%s: build() panics (%s) - a face index outside the vertex list, or an arithmetic failure, for valid parameters"
+                        % (label, str(e)[:120]), config=cfg)
+            continue
+        except (A.Undecided, IndexError, KeyError, TypeError, ValueError) as e:
+            raise common.Infra("C15.T3: %s could not be folded (%s)" % (label, str(e)[:200]))
+        if not (isinstance(r, tuple) and r[0] == "adt" and r[2] == "Mesh"):
+            raise common.Infra("C15.T3: %s did not fold to a Mesh (%s)" % (label, str(r)[:80]))
+        fs, vs = A.deref_all(it, r[3][mf.index("faces")]), A.deref_all(it, r[3][mf.index("verts")])
+        try:
+            faces = [tuple(int(x) for x in CF.floats_of(it, f)) for f in fs[1]]
+            verts = []
+            for v in vs[1]:
+                v = A.deref_all(it, v)
+                verts.append((CF.floats_of(it, v[3][vf.index("pos")]), CF.floats_of(it, v[3][vf.index("attrib")])))
+        except (TypeError, ValueError, IndexError) as e:
+            raise common.Infra("C15.T3: the mesh of %s is not constant (%s)" % (label, e))
+        ok = mesh_rules(rep, label, faces, verts, body.where(), cfg, expect_euler=euler if euler is not None else 2, closed=closed, centroid_winding=cw)
+        off = [(i, v[0]) for i, v in enumerate(verts) if not on_surface(_m.hypot(v[0][0], v[0][2]), v[0][1])]
+        if off:
+            ok = False
+            rep.violate("C15.T3", "T3|%s|surface" % name, body.where(), "%s: vertex %d at %s (radius %.4f) does not lie on the intended surface (%d such vertices)"
+                        % (label, off[0][0], [round(x, 4) for x in off[0][1]], _m.hypot(off[0][1][0], off[0][1][2]), len(off)), config=cfg)
+        n_ok += bool(ok)
+    rep.inst("C15.T3", "lathe family folded on %d concrete parameter sets (zero / non-zero end radii, capped / open, partial azimuth ranges): builds, valid indices, "
+                       "unit normals on the face side, on the surface, closed solids watertight: %d pass" % (len(cases), n_ok), config=cfg)
 
 
 # ---------------------------------------------------------------- D6 / D7
@@ -702,7 +787,7 @@ def profile_rules(rep, prog):
 
 
 def check_config(rep, prog):
-    for g in (platonic_rules, normal_rules, build_rules, lathe_rules, profile_rules):
+    for g in (platonic_rules, lathe_fold_rules, normal_rules, build_rules, lathe_rules, profile_rules):
         rep.guard(g, rep, prog)
 
 
@@ -717,7 +802,7 @@ def check(rep, args):
                        "strip/cap index-polynomial rules for the lathe family",
         "evaluations": len(rep.instances),
         "distinct_nontrivial": len({i["what"] for i in rep.instances}),
-        "rules": ["T2", "D6", "D7", "L1", "L2", "L3"],
+        "rules": ["T2", "T3", "D6", "D7", "L1", "L2", "L3"],
     }
     return "other", cov, ["lathe topology for every sector count, seam/pole handling and radii are not decided",
                           "Lerp::lerp(a,b,t) = a + t(b-a); normalize/to_pt/Neg have their documented meaning",
